@@ -40,6 +40,7 @@ package floodsub
 //@   noframe
 //@   nosweep nil-deref
 //@   assert at call funcvalue: istype(arg0, ptr(pubmessage.Message)) && unboxed(arg0, ptr(pubmessage.Message)) == msg
+//@   assert at call funcvalue: (s in ss.handlers) && held(ss.mtx)
 
 // ---- C28: forwarding ----
 // Every registered peer stream is registered under its own (peer, link) tuple.
@@ -60,3 +61,18 @@ package floodsub
 //@   loop 1 invariant forall t pubsub.PeerLinkTuple trigger dom(tosend, t) :: (t in tosend) ==> (t in peerChannels)
 //@   assert at call (*streamHandler).writePacket: recv.tpl.PeerID != prevHopPeerID && b58enc(recv.tpl.PeerID) != pubMsg.msg.FromPeerId
 //@   assert at call (*streamHandler).writePacket: recv.tpl in tosend
+
+// ---- C29: releasing a subscription ----
+// mtx of a subscription guards its handler set. Release removes the subscription from its channel's
+// set (once), so no further delivery goroutine is spawned for it; a delivery goroutine only calls
+// handlers that are in the set while it holds the subscription's lock. (That Release's delete-all
+// loop leaves the set empty depends on Go's semantics of deleting from a map while ranging over it,
+// which the engine does not model: undecided.)
+//@ guards subscription.mtx: handlers
+//@ lockinv subscription.mtx: self.handlers != nil
+//@ func (*subscription).Release
+//@   noframe
+//@   nosweep nil-deref
+//@   requires s.m != nil
+//@   cs FloodSub.mtx ensures !(s.channelID in self.channels) || !(s in self.channels[s.channelID])
+//@   cs FloodSub.mtx ensures forall c string, sb *subscription trigger dom(self.channels[c], sb) :: (c in self.channels) && (sb in self.channels[c]) ==> old((c in self.channels) && (sb in self.channels[c]))
